@@ -187,7 +187,13 @@ const BUILTIN_MACROS: [(&str, &str, &str); 8] = [
 ];
 
 /// parameter names: deliberately in no particular lexical relation to the operator keys
-const NUM_POOL: [&str; 16] = ["a", "x", "zone", "b", "k_0", "y", "c", "lon_0", "z", "s", "lat_0", "p", "n", "x_0", "q", "m"];
+const NUM_POOL: [&str; 26] = [
+    "a", "x", "inv_x", "zone", "b", "omit", "k_0", "y", "invf", "c", "lon_0", "fwd", "z", "s", "xinv", "lat_0", "p", "omit_fwd_x", "n", "x_0",
+    "x_inv", "q", "in", "m", "omit_inv2", "name",
+];
+/// ordinary parameter names that are near-misses of the modifiers inv / omit_fwd / omit_inv (and of
+/// the internal `_name`): plain names for the reference expander, and so they must be for the library
+const NEAR_MISS: [&str; 10] = ["inv_x", "invf", "xinv", "x_inv", "omit_fwd_x", "omit", "omit_inv2", "fwd", "in", "name"];
 const ELL_POOL: [&str; 4] = ["ellps", "e", "ellps_in", "ell"];
 const NUM_LITS: [&str; 16] = ["1", "2", "3", "5", "7", "10", "32", "33", "60", "12", "4", "21", "45", "0.25", "-3", "100"];
 const ELL_LITS: [&str; 6] = ["GRS80", "intl", "bessel", "WGS84", "clrk66", "krass"];
@@ -1306,7 +1312,35 @@ fn build_case(raw: &RawCase, mode: Mode) -> Case {
 /// argument x every subset of {s, x, y} given by the outermost caller. All literals distinct.
 const VALUE_FORMS_N: usize = 27 * 5 * 5 * 8 + 9 * 5 * 8;
 const FLAG_FORMS_N: usize = 5 * 3 * 6 * 8 + 5 * 3 * 6 * 3 * 5 * 8;
-const FORMS_N: usize = VALUE_FORMS_N + FLAG_FORMS_N;
+const NEAR_MISS_N: usize = 10 * 4 * 5 * 3 * 2;
+const FORMS_N: usize = VALUE_FORMS_N + FLAG_FORMS_N + NEAR_MISS_N;
+
+/// Parameter names that merely resemble a modifier, on invocations with and without a genuine
+/// `inv` in every position, at the outermost and at a nested invocation, before or after another
+/// argument: `i:m = helmert x=$<name> y=$<other>(0)`, optionally called through `o:m = i:m <other>=7`.
+fn near_miss_case(i: usize) -> Case {
+    let pos = |k: usize| [InvPos::No, InvPos::Prefix, InvPos::Infix, InvPos::Suffix][k];
+    let (n, top_inv, nest, ctx, order) = (i % 10, (i / 10) % 4, (i / 40) % 5, (i / 200) % 3, (i / 600) % 2);
+    let (name, other) = (NEAR_MISS[n], NEAR_MISS[(n + 3) % 10]);
+    let lit = |k: &str, v: &str| Arg { key: k.into(), val: Val::Lit(v.into()) };
+    let leaf = Step {
+        op: "helmert".into(),
+        args: vec![Arg { key: "x".into(), val: Val::Ref(name.into()) }, Arg { key: "y".into(), val: Val::RefDef(other.into(), "0".into()) }],
+        inv: InvPos::No,
+    };
+    let mut top_args = vec![lit(name, "5")];
+    if order == 1 {
+        top_args.insert(0, lit("z", "3"));
+    } else {
+        top_args.push(lit("z", "3"));
+    }
+    let inner = Macro { name: "i:m".into(), body: vec![leaf] };
+    if nest == 0 {
+        return Case { ctx: ctx as u8, lib: vec![inner], top: vec![Step { op: "i:m".into(), args: top_args, inv: pos(top_inv) }], twin: InvPos::Suffix, excluded_known: 0 };
+    }
+    let outer = Macro { name: "o:m".into(), body: vec![Step { op: "i:m".into(), args: vec![lit(other, "7")], inv: pos(nest - 1) }] };
+    Case { ctx: ctx as u8, lib: vec![outer, inner], top: vec![Step { op: "o:m".into(), args: top_args, inv: pos(top_inv) }], twin: InvPos::Prefix, excluded_known: 0 }
+}
 
 /// The same for flag-typed operator keys: utm south, addone inv, helmert exact, geodesic reversible,
 /// latitude geocentric; forms of the operator parameter {absent, bare word, =true, $P, $P(true), (true)},
@@ -1356,6 +1390,9 @@ fn flag_forms_case(i: usize) -> Case {
 }
 
 fn forms_case(i: usize) -> Case {
+    if i >= VALUE_FORMS_N + FLAG_FORMS_N {
+        return near_miss_case(i - VALUE_FORMS_N - FLAG_FORMS_N);
+    }
     if i >= VALUE_FORMS_N {
         return flag_forms_case(i - VALUE_FORMS_N);
     }
@@ -1689,7 +1726,7 @@ fn main() {
 
     run.enumerate(
         "binding-forms",
-        "exhaustive: helmert K=<form> inside i:m, invoked directly or as i:m P=<form> from o:m; forms {absent, literal, $n, $n(d), (d)} for both, K,P,Q over {s,x,y}^3 (every lexical order and coincidence), every subset of {s,x,y} supplied by the outermost caller, 3 contexts, plus the inverted twin; the same for flag-typed keys (utm south, addone inv, helmert exact, geodesic reversible, latitude geocentric: forms {absent, bare word, =true, $n, $n(true), (true)}, names over {f,g,K}); non-trivial = a binding resolved through >= 1 nesting level",
+        "exhaustive: helmert K=<form> inside i:m, invoked directly or as i:m P=<form> from o:m; forms {absent, literal, $n, $n(d), (d)} for both, K,P,Q over {s,x,y}^3 (every lexical order and coincidence), every subset of {s,x,y} supplied by the outermost caller, 3 contexts, plus the inverted twin; the same for flag-typed keys (utm south, addone inv, helmert exact, geodesic reversible, latitude geocentric: forms {absent, bare word, =true, $n, $n(true), (true)}, names over {f,g,K}); and parameter names that are near-misses of the modifiers (inv_x, invf, xinv, x_inv, omit_fwd_x, omit, omit_inv2, fwd, in, name) on outermost and nested invocations with inv absent / prefix / infix / suffix; non-trivial = a binding resolved through >= 1 nesting level",
         FORMS_N,
         forms_case,
         check,
@@ -1698,7 +1735,7 @@ fn main() {
     let n = run.scale(40_000, 800_000);
     run.section(
         "equivalence",
-        "random acyclic libraries (nesting depth 0..10, single-operator and pipeline bodies over helmert/utm/tmerc/cart/addone/built-in macros, every binding form on operator parameters, names drawn from a pool unrelated to key order, inv infix/suffix on invocations at every level, invocation alone or inside a pipeline, 3 contexts); invocation arguments in binding form are kept only outside the registered class nested-arg-* (rewritten to literals otherwise, counted as excluded_known); non-trivial = instantiates and a $/default binding or visible caller argument is resolved through >= 1 nesting level; distinct by library + invocation text",
+        "random acyclic libraries (parameter names include near-misses of the modifiers: inv_x, invf, xinv, x_inv, omit_fwd_x, omit, omit_inv2, fwd, in, name; nesting depth 0..10, single-operator and pipeline bodies over helmert/utm/tmerc/cart/addone/built-in macros, every binding form on operator parameters, names drawn from a pool unrelated to key order, inv infix/suffix on invocations at every level, invocation alone or inside a pipeline, 3 contexts); invocation arguments in binding form are kept only outside the registered class nested-arg-* (rewritten to literals otherwise, counted as excluded_known); non-trivial = instantiates and a $/default binding or visible caller argument is resolved through >= 1 nesting level; distinct by library + invocation text",
         n,
         || raw_case(10).prop_map(|r| build_case(&r, Mode::Safe)),
         check,
